@@ -615,6 +615,33 @@ func check(c *pbt.Ctx, cs Case) {
 			}
 		})
 	}
+	// one tree and one children buffer are kept and loaded again and again (Load / Children reset what they held):
+	// every loaded node must hold the reference's element - type, value, Len, and below it the same again
+	{
+		var tree generic.PathNode
+		var kids []generic.PathNode
+		modes := []bool{false, true, true, false}
+		if cs.Pick&1 == 1 {
+			modes = []bool{true, false, true, true}
+		}
+		for round, recurse := range modes {
+			c.Step("reused tree: Load recurse=%v (round %d)", recurse, round)
+			c.Protect("", func() {
+				tree.Node = e.root.Node
+				if err := tree.Load(recurse, &generic.Options{}, desc); err != nil {
+					c.Failf("load-error", "Load(recurse=%v) into a reused tree: %v", recurse, err)
+				}
+				e.cmpMsgTree(fmt.Sprintf("Load(recurse=%v, round %d)", recurse, round), tree.Next, ref, recurse, "")
+			})
+			c.Step("reused buffer: Children recurse=%v (round %d)", recurse, round)
+			c.Protect("", func() {
+				if err := e.root.Children(&kids, recurse, &generic.Options{}, desc); err != nil {
+					c.Failf("children-error", "Children(recurse=%v) into a reused buffer: %v", recurse, err)
+				}
+				e.cmpMsgTree(fmt.Sprintf("Children(recurse=%v, round %d)", recurse, round), kids, ref, recurse, "")
+			})
+		}
+	}
 	for _, recurse := range []bool{false, true} {
 		c.Step("Children/Load recurse=%v", recurse)
 		regL := ""
@@ -685,6 +712,134 @@ func regionLoad(m protoreflect.Message) string {
 	return ""
 }
 
+func supportedKey(k protoreflect.Kind) bool {
+	return k == protoreflect.StringKind || k == protoreflect.Int32Kind || k == protoreflect.Int64Kind || k == protoreflect.Uint32Kind || k == protoreflect.Uint64Kind
+}
+
+// cmpMsgTree compares the children loaded for a message with the reference message: exactly the present
+// fields, each holding the reference's element (and, after a recursive load, its children in turn).
+func (e *env) cmpMsgTree(what string, next []generic.PathNode, m protoreflect.Message, recurse bool, ps string) {
+	c := e.c
+	seen := map[protoreflect.FieldNumber]bool{}
+	for i := range next {
+		pn := &next[i]
+		if pn.Path.Type() != generic.PathFieldId {
+			c.Failf("tree-path:"+what, "%s %s: child %d of a message has path type %v", what, ps, i, pn.Path.Type())
+		}
+		num := protoreflect.FieldNumber(pn.Path.Id())
+		fd := m.Descriptor().Fields().ByNumber(num)
+		if fd == nil || !m.Has(fd) || seen[num] {
+			c.Failf("tree-extra-child:"+what, "%s %s: the tree lists field %d (declared %v, duplicate %v), the reference has no such element", what, ps, num, fd != nil, seen[num])
+		}
+		seen[num] = true
+		e.cmpTreeNode(what, pn, fd, m.Get(fd), recurse, fmt.Sprintf("%s/#%d", ps, num))
+	}
+	m.Range(func(fd protoreflect.FieldDescriptor, _ protoreflect.Value) bool {
+		if !seen[fd.Number()] {
+			c.Failf("tree-missing-child:"+what, "%s %s: field %d is on the wire, the tree does not list it", what, ps, fd.Number())
+		}
+		return true
+	})
+}
+
+func (e *env) cmpTreeNode(what string, pn *generic.PathNode, fd protoreflect.FieldDescriptor, want protoreflect.Value, recurse bool, ps string) {
+	c := e.c
+	got := generic.Value{Node: pn.Node}
+	switch {
+	case fd.IsMap():
+		if !supportedKey(fd.MapKey().Kind()) {
+			return
+		}
+		mp := want.Map()
+		if got.Type() != dproto.MAP {
+			c.Failf("wrong-type:"+what, "%s %s: type %v want MAP", what, ps, got.Type())
+		}
+		if !recurse {
+			return // a lazily loaded container node carries no element count or element types (by design: "size is not calculated")
+		}
+		if l, err := got.Len(); err != nil || l != mp.Len() {
+			c.Failf("wrong-len:"+what, "%s %s: map Len()=%d,%v reference %d", what, ps, l, err, mp.Len())
+		}
+		if len(pn.Next) != mp.Len() {
+			c.Failf("tree-child-count:"+what, "%s %s: %d children loaded for a map of %d entries", what, ps, len(pn.Next), mp.Len())
+		}
+		for i := range pn.Next {
+			ch := &pn.Next[i]
+			var mk protoreflect.MapKey
+			switch {
+			case fd.MapKey().Kind() == protoreflect.StringKind && ch.Path.Type() == generic.PathStrKey:
+				mk = protoreflect.ValueOfString(ch.Path.Str()).MapKey()
+			case fd.MapKey().Kind() != protoreflect.StringKind && ch.Path.Type() == generic.PathIntKey:
+				k := ch.Path.Int()
+				switch fd.MapKey().Kind() {
+				case protoreflect.Int32Kind:
+					mk = protoreflect.ValueOfInt32(int32(k)).MapKey()
+				case protoreflect.Int64Kind:
+					mk = protoreflect.ValueOfInt64(int64(k)).MapKey()
+				case protoreflect.Uint32Kind:
+					mk = protoreflect.ValueOfUint32(uint32(k)).MapKey()
+				default:
+					mk = protoreflect.ValueOfUint64(uint64(k)).MapKey()
+				}
+			default:
+				c.Failf("tree-path:"+what, "%s %s: entry %d has path type %v for a %s key", what, ps, i, ch.Path.Type(), fd.MapKey().Kind())
+			}
+			if !mp.Has(mk) {
+				c.Failf("tree-extra-child:"+what, "%s %s: the tree lists key %v, the reference map has no such key", what, ps, mk.Interface())
+			}
+			eps := fmt.Sprintf("%s/{%v}", ps, mk.Interface())
+			if fd.MapValue().Kind() == protoreflect.MessageKind {
+				e.checkMessageNode(what, eps, mp.Get(mk).Message(), generic.Value{Node: ch.Node})
+				e.cmpMsgTree(what, ch.Next, mp.Get(mk).Message(), recurse, eps)
+			} else {
+				e.checkScalar(what, eps, fd.MapValue(), mp.Get(mk), generic.Value{Node: ch.Node})
+			}
+		}
+	case fd.IsList():
+		l := want.List()
+		if got.Type() != dproto.LIST {
+			c.Failf("wrong-type:"+what, "%s %s: type %v want LIST", what, ps, got.Type())
+		}
+		if !recurse {
+			return
+		}
+		if ln, err := got.Len(); err != nil || ln != l.Len() {
+			c.Failf("wrong-len:"+what, "%s %s: list Len()=%d,%v reference %d", what, ps, ln, err, l.Len())
+		}
+		for i := 0; i < l.Len(); i++ {
+			el := generic.Value{Node: got.Node.Index(i)}
+			if fd.Kind() == protoreflect.MessageKind {
+				e.checkMessageNode(what+":Index", fmt.Sprintf("%s/[%d]", ps, i), l.Get(i).Message(), el)
+			} else {
+				e.checkScalar(what+":Index", fmt.Sprintf("%s/[%d]", ps, i), fd, l.Get(i), el)
+			}
+		}
+		if len(pn.Next) != l.Len() {
+			c.Failf("tree-child-count:"+what, "%s %s: %d children loaded for a list of %d elements", what, ps, len(pn.Next), l.Len())
+		}
+		for i := range pn.Next {
+			ch := &pn.Next[i]
+			if ch.Path.Type() != generic.PathIndex || ch.Path.Int() != i {
+				c.Failf("tree-path:"+what, "%s %s: element %d has path %v", what, ps, i, ch.Path)
+			}
+			eps := fmt.Sprintf("%s/[%d]", ps, i)
+			if fd.Kind() == protoreflect.MessageKind {
+				e.checkMessageNode(what, eps, l.Get(i).Message(), generic.Value{Node: ch.Node})
+				e.cmpMsgTree(what, ch.Next, l.Get(i).Message(), recurse, eps)
+			} else {
+				e.checkScalar(what, eps, fd, l.Get(i), generic.Value{Node: ch.Node})
+			}
+		}
+	case fd.Kind() == protoreflect.MessageKind:
+		e.checkMessageNode(what, ps, want.Message(), got)
+		if recurse {
+			e.cmpMsgTree(what, pn.Next, want.Message(), recurse, ps)
+		}
+	default:
+		e.checkScalar(what, ps, fd, want, got)
+	}
+}
+
 func cmpTop(c *pbt.Ctx, reg, what string, out []generic.PathNode, present []int32) {
 	var got []int32
 	for _, p := range out {
@@ -733,7 +888,7 @@ func usesKind(m protoreflect.Message, pred func(fd protoreflect.FieldDescriptor)
 
 var Prop = pbt.Register(pbt.Prop[Case]{
 	Name: "TestProtoReads",
-	Rule: "generated proto3 schema (all 15 scalar kinds, enums, nested/recursive messages, repeated packed/unpacked, maps of every key kind, multi-byte tags) + message generated and encoded by protobuf-go; for every declared field at depth <= 2: GetByPath by number and by name, GetByPathWithAddress, Field, FieldByName, Index, GetByStr/GetByInt must return the reference value (typed casts, Len, Interface, message bytes re-parsed by the reference), absent fields/keys/indexes must be not-found; GetMany, Children and PathNode.Load must list exactly the present fields; non-trivial = a repeated or map field with >= 2 entries and a nested message",
+	Rule: "generated proto3 schema (all 15 scalar kinds, enums, nested/recursive messages, repeated packed/unpacked, maps of every key kind, multi-byte tags) + message generated and encoded by protobuf-go; for every declared field at depth <= 2: GetByPath by number and by name, GetByPathWithAddress, Field, FieldByName, Index, GetByStr/GetByInt must return the reference value (typed casts, Len, Interface, message bytes re-parsed by the reference), absent fields/keys/indexes must be not-found; GetMany, Children and PathNode.Load must list exactly the present fields; a tree and a children buffer that are loaded four times in alternating lazy/recursive modes must after every load hold the reference's elements at every level (type, value, Len, Index, children); non-trivial = a repeated or map field with >= 2 entries and a nested message",
 	Gen: func(t *rapid.T) Case {
 		sc := pmodel.GenSchema(t, pmodel.GenOpts{AllKinds: rapid.IntRange(0, 3).Draw(t, "allKinds") == 0, BigNumbers: true, KeyKinds: pmodel.SupportedKeyKinds})
 		comp, err := pmodel.Compile(sc.Render(), sc.Main)
